@@ -250,13 +250,16 @@ def run(prefix, ops, wcfgs, allowed_ops, act, slot_w=False, dev_check=True, leve
             lab = None
         if not ok:
             explained = None
-            if dev_check and not any_queued_action:
+            if dev_check:
+                # with an assigning queued callback the statement fixes the calls as a multiset only; the same holds for
+                # the model variants that encode a known deviation
+                same = multiset_match if any_queued_action else traces_match
                 m2 = deviating(('coalesce',))
-                if m2 is not None and traces_match(rt, [t[:3] for t in m2.trace]):
+                if m2 is not None and same(rt, [t[:3] for t in m2.trace]):
                     explained = 'per_param_coalescing'
                 elif trig_in_batch:
                     m3 = deviating(('coalesce', 'trigger_batch'))
-                    if m3 is not None and traces_match(rt, [t[:3] for t in m3.trace]):
+                    if m3 is not None and same(rt, [t[:3] for t in m3.trace]):
                         explained = 'trigger_inside_batch'
             info = dict(info, explained_by=explained)
             _diagnose(prefix, rt, mt, info)
